@@ -10,6 +10,7 @@ From Coq Require Import ZArith List Lia Bool Permutation.
 From LZ4V Require Import Spec.BlockSpec Spec.XXH32 Spec.FrameSpec Gen.Consts.
 From LZ4V Require Import Model.FrameC Proofs.BlockHistExt Proofs.FrameCBytes Proofs.FrameCBlocks Proofs.FrameCProofs Proofs.FrameCTheorems.
 From LZ4V Require Proofs.FrameDSound Proofs.FrameDChunk Proofs.FileCompInst.
+From LZ4V Require Model.WriteReg Proofs.WriteRegProofs.
 From LZ4V Require Import Model.Sparse Model.CliOpts Model.CompressPipe Proofs.SparseProofs Proofs.CliProofs.
 Import ListNotations.
 Local Open Scope Z_scope.
@@ -459,3 +460,109 @@ Section PipesOpen.
     destruct mt; [apply mt_roundtrip_open; assumption|apply st_roundtrip_open; assumption].
   Qed.
 End PipesOpen.
+
+(* ================================================================== C04 with the library contracts discharged *)
+(* the write register of lz4io.c (Model/WriteReg.v, property C13): the buffers handed to fwrite *)
+Definition wr_real (arr : list (Z * list Z)) : list (list Z) :=
+  snd (fst (LZ4V.Model.WriteReg.arrive_all LZ4V.Model.WriteReg.WR_init arr [] true)).
+Theorem wr_real_in_order : write_order_contract wr_real.
+Proof.
+  intros blks perm Hp. destruct (LZ4V.Proofs.WriteRegProofs.write_order blks perm Hp) as [(w & E & _) _].
+  unfold wr_real. unfold LZ4V.Proofs.WriteRegProofs.arrival in E. rewrite E. reflexivity.
+Qed.
+
+Section Discharged.
+  Variable blk : nat -> list byte -> list byte -> option (list byte).
+  Hypothesis Hblk : blk_contract strict_valid blk.
+
+  Theorem st_roundtrip_discharged : forall (skipcrc : bool) (p : lz4f_prefs) (blockSize : Z) (dict content : list Z),
+    1 <= blockSize -> valid_prefs p content -> fp_autoFlush p <> 0 -> lenZ content < U64_MAX1 ->
+    let F := st_output (c4_header) (c4_frame blk) (c4_update blk) (c4_end blk) p blockSize dict content in
+    stream_decode strict_valid skipcrc (S (length F)) dict [] F = Some content.
+  Proof.
+    intros skipcrc. exact (st_roundtrip_open strict_valid skipcrc c4_header (c4_frame blk) (c4_update blk) (c4_end blk)
+                              (c4_header_contract) (c4_update_contract_af blk Hblk skipcrc) (c4_end_contract_v blk Hblk)
+                              (c4_frame_contract_b blk Hblk skipcrc)).
+  Qed.
+
+  Theorem mt_roundtrip_discharged : forall (skipcrc : bool) (p : lz4f_prefs) (dict content : list Z),
+    valid_prefs p content -> fp_autoFlush p <> 0 -> lenZ content < U64_MAX1 ->
+    let F := mt_output c4_header (c4_frame blk) (c4_update blk) p dict content in
+    stream_decode strict_valid skipcrc (S (length F)) dict [] F = Some content.
+  Proof.
+    intros skipcrc. exact (mt_roundtrip_open strict_valid skipcrc c4_header (c4_frame blk) (c4_update blk)
+                              (c4_header_contract) (c4_update_contract_af blk Hblk skipcrc) (c4_frame_contract_b blk Hblk skipcrc)).
+  Qed.
+
+  (* MT determinism with the write register of lz4io.c itself (no hypothesis at all) *)
+  Theorem mt_deterministic_discharged : forall (p : lz4f_prefs) (dict content : list Z) (nbWorkers : Z) (order : list nat),
+    1 <= nbWorkers -> CHUNK <= lenZ content ->
+    let cs := chunks_of CHUNK content in
+    let results := map (mt_chunk (c4_update blk) p dict cs) (List.seq 0 (length cs)) in
+    Permutation order (List.seq 0 (length cs)) ->
+    mt_assembled c4_header wr_real p content (map (fun i => (Z.of_nat i, nth i results [])) order)
+    = mt_output c4_header (c4_frame blk) (c4_update blk) p dict content.
+  Proof. exact (mt_deterministic c4_header (c4_frame blk) (c4_update blk) wr_real wr_real_in_order). Qed.
+End Discharged.
+
+(* ---- legacy format: LZ4_compress_fast / LZ4_compress_HC on 8 MB blocks; the only hypothesis is the
+   block compressor's own contract (C01): it succeeds within LZ4_compressBound and what it writes
+   decodes to its input ---- *)
+Section Legacy.
+  (* the block compressor, as a partial function (None = it returned 0) *)
+  Variable cblk : Z -> list Z -> option (list Z).
+  Definition legacy_blk_contract : Prop :=
+    forall level c, lenZ c <= LEGACY_BLOCKSIZE ->
+      exists b, cblk level c = Some b /\ strict_valid [] b = Some c /\ lenZ b <= LZ4IO_LEGACY_BOUND.
+  Definition c4_block (level : Z) (c : list Z) : list Z := match cblk level c with Some b => b | None => [] end.
+  Hypothesis Hc : legacy_blk_contract.
+
+  Theorem legacy_roundtrip_discharged : forall (skipcrc : bool) (level : Z) (dict content : list Z),
+    let F := legacy_output c4_block level content in
+    stream_decode strict_valid skipcrc (S (length F)) dict [] F = Some content.
+  Proof.
+    intros skipcrc. apply legacy_roundtrip. intros level c Hl. unfold c4_block.
+    destruct (Hc level c Hl) as (b & -> & A & B). auto.
+  Qed.
+End Legacy.
+
+(* the whole CLI: every accepted option list, both builds *)
+Theorem cli_roundtrip_discharged : forall blk cblk,
+  blk_contract strict_valid blk -> legacy_blk_contract cblk ->
+  forall (skipcrc mt : bool) (args : list arg) (s : cli_state) (fileSize : Z) (dict content : list Z),
+  parse_args cli_init args = Some s -> (fileSize = 0 \/ fileSize = lenZ content) -> lenZ content < U64_MAX1 ->
+  let F := cli_compress c4_header (c4_frame blk) (c4_update blk) (c4_end blk) (c4_block cblk) mt s fileSize dict content in
+  stream_decode strict_valid skipcrc (S (length F)) dict [] F = Some content.
+Proof.
+  intros blk cblk Hblk Hc skipcrc. 
+  apply (cli_roundtrip_open strict_valid skipcrc c4_header (c4_frame blk) (c4_update blk) (c4_end blk) (c4_block cblk)
+           c4_header_contract (c4_update_contract_af blk Hblk skipcrc) (c4_end_contract_v blk Hblk) (c4_frame_contract_b blk Hblk skipcrc)).
+  intros level c Hl. unfold c4_block. destruct (Hc level c Hl) as (b & -> & A & B). auto.
+Qed.
+
+(* ================================================================== the contracts as first stated are false of the library *)
+(* a block compressor that never compresses (every block stored raw): meets blk_contract *)
+Definition blk_raw : nat -> list byte -> list byte -> option (list byte) := fun _ _ _ => None.
+Lemma blk_raw_contract : blk_contract strict_valid blk_raw.
+Proof. intros n h x c H. discriminate H. Qed.
+
+(* end_contract asks LZ4F_compressEnd for an end mark whatever the declared content size; with a
+   declared size that is not the real one the library (and the model) returns ERROR_frameSize_wrong *)
+Definition p_wrong_csize : lz4f_prefs := mkFp 1 4 0 0 5 1 1 0.
+Theorem end_contract_refuted : ~ end_contract (c4_end blk_raw).
+Proof.
+  intro H. specialize (H p_wrong_csize [1; 2; 3]). vm_compute in H. discriminate H.
+Qed.
+
+(* update_contract asks every LZ4F_compressUpdate to emit blocks holding exactly its input; without
+   autoFlush the library buffers: 3 bytes in, nothing out *)
+Definition p_no_autoflush : lz4f_prefs := mkFp 1 4 0 0 0 1 0 0.
+Theorem update_contract_refuted : forall skipcrc, ~ update_contract strict_valid skipcrc (c4_update blk_raw).
+Proof.
+  intros skipcrc H.
+  specialize (H p_no_autoflush (mkDesc true false None false None 4) 65536 [] [] [1; 2; 3] [] []
+                eq_refl eq_refl eq_refl eq_refl eq_refl).
+  destruct H as (nb & Hnb & E).
+  vm_compute in Hnb. assert (nb = 0%nat) by lia. subst nb.
+  specialize (E 1%nat [0; 0; 0; 0]). vm_compute in E. discriminate E.
+Qed.
